@@ -104,11 +104,19 @@ def desugar(loc, relfile, fn_paths, rules, _pass=0):
                     pat = src[v["pat"][0]:v["pat"][1]]
                     ex = src[v["expr"][0]:v["expr"][1]]
                     # keep a loop label, if any, on the while loop
-                    new = (f"let pv_seq_{pat} = {ex}; let mut pv_n_{pat}: usize = 0; while pv_n_{pat} < pv_seq_{pat}.len() {{ let {pat} = pv_seq_{pat}[pv_n_{pat}]; pv_n_{pat} += 1;")
-                    head = src[v["call"][0]:v["call"][1]]
-                    if not head.lstrip().startswith("for"):
-                        raise Undecided(f"{fp}: D30 candidate with a loop label is not supported")
-                    rewrites.append((v["call"][0], v["call"][1], new))
+                    # the rewrite starts at the `for` keyword: a label in front of it stays in the text, but the `let`s must
+                    # come before the label, so a labelled loop is wrapped in a block
+                    a0 = v["call"][0]
+                    if v.get("label"):
+                        la = src.rfind("'" + v["label"], 0, a0)
+                        if la < 0 or src[la:a0].strip() != "'" + v["label"] + ":":
+                            raise Undecided(f"{fp}: D30: label of the for loop not found")
+                        a0 = la
+                        lab = "'" + v["label"] + ": "
+                    else:
+                        lab = ""
+                    new = (f"let pv_seq_{pat} = {ex}; let mut pv_n_{pat}: usize = 0; {lab}while pv_n_{pat} < pv_seq_{pat}.len() {{ let {pat} = pv_seq_{pat}[pv_n_{pat}]; pv_n_{pat} += 1;")
+                    rewrites.append((a0, v["call"][1], new))
                     records.append({"fn": fp, "rule": "D30 for p in E { B }  =>  let s = E; let mut n = 0; while n < s.len() { let p = s[n]; n += 1; B }   (E is evaluated once to an indexable sequence of copyable items; Verus `for` has no `continue`)",
                                     "original": src[v["call"][0]:v["call"][1]], "rewritten": new})
                     continue
